@@ -220,6 +220,7 @@ def _is_logging(st):
     return True
 
 
+CLS_NODE: list = []                          # the RequestCache class node (for looking up extracted helpers)
 CREATE_ID_PARAMS = ["number", "prefix"]   # parameter order of _create_identifier, read from its definition
 TABLE_ATTR = ["_identifiers"]       # inferred from `has`: the attribute the identifier is looked up in
 TIMEOUT_METHOD = ["_on_timeout"]     # inferred from `add`: the method handed to register_task
@@ -313,7 +314,14 @@ class _Seq:
         return True
 
     def cancel_futures_loop(self, st, of_cache_var):
-        """for f, _ in <cache>.managed_futures: f.cancel()"""
+        """for f, _ in <cache>.managed_futures: f.cancel()   — written inline or extracted into a helper method"""
+        if isinstance(st, ast.Expr) and isinstance(st.value, ast.Call) and (_call_name(st.value.func) or "").startswith("self.") \
+                and [ast.unparse(a) for a in st.value.args] == [of_cache_var] and not st.value.keywords and CLS_NODE:
+            h = [f for f in CLS_NODE[0].body if isinstance(f, ast.FunctionDef) and "self." + f.name == _call_name(st.value.func)]
+            if len(h) == 1 and len(h[0].args.args) == 2:
+                hb = _strip_doc(h[0].body)
+                return len(hb) == 1 and self.cancel_futures_loop(hb[0], h[0].args.args[1].arg)
+            return False
         if not (isinstance(st, ast.For) and not st.orelse and len(st.body) == 1):
             return False
         it = st.iter
@@ -472,6 +480,10 @@ class _Seq:
                 and not st.orelse:
             self.walk(st.body)                                  # the str branch is the implementation
             return True
+        if isinstance(st, ast.If) and not st.orelse and ast.unparse(st.test) == "not isinstance(prefix, str)" \
+                and len(st.body) == 1 and isinstance(st.body[0], ast.Return) \
+                and ast.unparse(st.body[0].value) == "self.pop(prefix.name, number)":
+            return True                                         # class form handled first, str branch follows unindented
         if isinstance(st, ast.Return) and isinstance(st.value, ast.Call) and _call_name(st.value.func) == "self.pop":
             a = st.value.args
             if len(a) == 2 and isinstance(a[0], ast.Attribute) and a[0].attr == "name":
@@ -708,19 +720,24 @@ def check_delay_rule(sq, cls_node):
 PRIMS = ["assertDelay", "shutdownGate", "dupGuard", "registerTask", "storeIdent", "resolveWaiter", "returnAdded",
          "popIdent", "cancelTask", "returnClaimed", "removeIdent", "callOnTimeout", "completeFutures",
          "cancelAllTasks", "clearIdents", "returnTasks", "setShutdown", "cancelRegisteredFutures", "awaitTasks",
-         "superShutdown"]
+         "superShutdown", "tableContains", "tableLookup", "raiseIfHas"]
 
 
 def extract_ops(src: str) -> dict:
     tree = ast.parse(src)
     out = {}
+    CLS_NODE[:] = [_find(tree.body, "RequestCache")]
     CREATE_ID_PARAMS[:] = [a.arg for a in _find(tree.body, "RequestCache", "_create_identifier").args.args[1:]]
     # names that a refactor may change: the identifier table attribute and the timeout method
     has = _find(tree.body, "RequestCache", "has")
     tabs = [c.comparators[0].attr for c in ast.walk(has) if isinstance(c, ast.Compare) and len(c.ops) == 1
             and isinstance(c.ops[0], ast.In) and _is_self_attr(c.comparators[0])]
+    if not tabs:                                                # has() written through get(): look at get() instead
+        g = _find(tree.body, "RequestCache", "get")
+        tabs = [c.func.value.attr for c in ast.walk(g) if isinstance(c, ast.Call) and isinstance(c.func, ast.Attribute)
+                and c.func.attr == "get" and _is_self_attr(c.func.value)]
     if len(set(tabs)) != 1:
-        _fail("has(): cannot tell which attribute holds the identifier table")
+        _fail("has()/get(): cannot tell which attribute holds the identifier table")
     TABLE_ATTR[0] = tabs[0]
     regs = [c for c in ast.walk(_find(tree.body, "RequestCache", "add")) if isinstance(c, ast.Call)
             and _call_name(c.func) == "self.register_task"]
@@ -783,11 +800,91 @@ def extract_done_cb(src: str) -> bool:
     _fail("done_cb does not remove the name from _pending_tasks before reading the result")
 
 
+def extract_lookup_ops(tree) -> dict:
+    """has / get (str branch + class-form delegation) and the duplicate guard of NumberCache.__init__ as primitive lists:
+       has  -> [tableContains]   `return self._create_identifier(number, prefix) in <table>`   (or `self.get(…) is not None`)
+       get  -> [tableLookup]     `return <table>.get(self._create_identifier(number, prefix))`
+       ctor -> [raiseIfHas]      `if request_cache.has(prefix, number): raise RuntimeError(…)` before the fields are set"""
+    out = {}
+    tab = "self." + TABLE_ATTR[0]
+
+    def str_branch(fn, name):
+        body = _strip_doc(fn.body)
+        if len(body) == 2 and isinstance(body[0], ast.If) and not body[0].orelse \
+                and ast.unparse(body[0].test) in ("isinstance(prefix, str)",) and isinstance(body[1], ast.Return) \
+                and ast.unparse(body[1].value) == f"self.{name}(prefix.name, number)":
+            return body[0].body
+        if len(body) == 2 and isinstance(body[0], ast.If) and not body[0].orelse \
+                and ast.unparse(body[0].test) == "not isinstance(prefix, str)" and len(body[0].body) == 1 \
+                and isinstance(body[0].body[0], ast.Return) \
+                and ast.unparse(body[0].body[0].value) == f"self.{name}(prefix.name, number)":
+            return body[1:]
+        _fail(f"{name}: expected the str branch plus the class-form delegation self.{name}(prefix.name, number)")
+
+    def ident_call(node):
+        sq = _Seq("has", _find(tree.body, "RequestCache", "has"))
+        return sq.is_create_identifier(node)
+    # has
+    hb = _strip_doc(_find(tree.body, "RequestCache", "has").body)
+    if len(hb) == 1 and isinstance(hb[0], ast.Return) and ast.unparse(hb[0].value) == "self.get(prefix, number) is not None":
+        b = []                                                  # both forms through get(): membership all the same
+        ok = True
+    else:
+        b = str_branch(_find(tree.body, "RequestCache", "has"), "has")
+        ok = False
+    if len(b) == 1 and isinstance(b[0], ast.Return):
+        v = b[0].value
+        if isinstance(v, ast.Compare) and len(v.ops) == 1 and isinstance(v.ops[0], ast.In) and ident_call(v.left) \
+                and ast.unparse(v.comparators[0]) == tab:
+            ok = True
+        if ast.unparse(v) in ("self.get(prefix, number) is not None",):
+            ok = True
+    if not ok:
+        _fail("has: the str branch is not a membership test of the identifier in the table")
+    out["has"] = ["tableContains"]
+    # get
+    b = str_branch(_find(tree.body, "RequestCache", "get"), "get")
+    ok = False
+    if len(b) == 1 and isinstance(b[0], ast.Return):
+        v = b[0].value
+        if isinstance(v, ast.Call) and _call_name(v.func) == tab + ".get" and len(v.args) in (1, 2) and ident_call(v.args[0]) \
+                and (len(v.args) == 1 or ast.unparse(v.args[1]) == "None"):
+            ok = True
+    if not ok:
+        _fail("get: the str branch is not a lookup of the identifier in the table")
+    out["get"] = ["tableLookup"]
+    # NumberCache.__init__
+    ctor = _find(tree.body, "NumberCache", "__init__")
+    params = [a.arg for a in ctor.args.args]            # self, request_cache, prefix, number
+    ops, fields = [], {}
+    for st in _strip_doc(ctor.body):
+        if isinstance(st, ast.Expr) and ast.unparse(st.value) == "super().__init__()":
+            continue
+        if isinstance(st, (ast.Assign, ast.AnnAssign)):
+            tgt = st.targets[0] if isinstance(st, ast.Assign) else st.target
+            if _is_self_attr(tgt):
+                fields[tgt.attr] = ast.unparse(st.value)
+                continue
+        if isinstance(st, ast.If) and not st.orelse and isinstance(st.test, ast.Call) \
+                and ast.unparse(st.test) == f"{params[1]}.has({params[2]}, {params[3]})" \
+                and isinstance(st.body[-1], ast.Raise) and "RuntimeError" in ast.unparse(st.body[-1]):
+            if "_prefix" in fields or "_number" in fields:
+                _fail("NumberCache.__init__: the duplicate guard comes after the identity fields are set")
+            ops.append("raiseIfHas")
+            continue
+        _fail("NumberCache.__init__: statement outside the translator's subset: " + ast.unparse(st)[:80])
+    if fields.get("_prefix") != params[2] or fields.get("_number") != params[3] or fields.get("_managed_futures") != "[]":
+        _fail("NumberCache.__init__: does not store prefix / number / an empty list of managed futures")
+    out["ctor"] = ops
+    return out
+
+
 def translate():
     src = (vlib.REPO / "ipv8" / "requestcache.py").read_text()
     c = extract(src)
     c["doneCbGuarded"] = extract_done_cb((vlib.REPO / "ipv8" / "taskmanager.py").read_text())
     ops = extract_ops(src)
+    ops.update(extract_lookup_ops(ast.parse(src)))
     c["ops"] = ops
 
     def lst(name):
@@ -829,6 +926,12 @@ def popOps : List Prim := {lst("pop")}
 def onTimeoutOps : List Prim := {lst("_on_timeout")}
 /-- what of RequestCache._on_timeout still runs when cache.on_timeout() raises (the `finally` blocks around the call) -/
 def onTimeoutAbortOps : List Prim := {lst("_on_timeout_abort")}
+/-- RequestCache.has (str branch) -/
+def hasOps : List Prim := {lst("has")}
+/-- RequestCache.get (str branch) -/
+def getOps : List Prim := {lst("get")}
+/-- NumberCache.__init__: what happens before the identity fields are stored -/
+def ctorOps : List Prim := {lst("ctor")}
 /-- RequestCache.clear, in source order -/
 def clearOps : List Prim := {lst("clear")}
 /-- RequestCache.shutdown_task_manager (the override; `[.superShutdown]` if the method is inherited unchanged) -/
